@@ -57,6 +57,7 @@ def case_strategy(draw, tier):
         'sync_work': [draw(st.lists(scen.work_ms, min_size=1, max_size=2)) for _ in range(nsync)],
         'ephs': ephs,
         'rejoin': draw(st.booleans()),          # E0 publishes and K0 takes it as an ephemeral source
+        'balanced': draw(st.sampled_from([None, None, None, 1, 2])),     # the publisher is a load balancer with this many outputs, listeners sit on output 0
         # constant delay per link (different links differ): with per-message variation the two runs would see different delays on the
         # synchronized links just because their message counts differ, and the timing comparison (b) would measure noise
         'net': (lambda nt: {**nt, 'delays': [t[:1] for t in nt['delays']], 'keyed': True, 'ties': [0]})(draw(scen.net_strategy(max_drops=0))),
@@ -76,18 +77,25 @@ def build_nodes(case, with_eph):
         pub = 'P'
     else:
         nodes.append({'id': 'S', 'beh': {'kind': 'src', 'n': case['n'], 'work': case['src_work'], 'topics': case['ptopics']}, 'required': syncs, 'start': st_[0]})
-    rejoin = with_eph and case['rejoin']
+    bal = case.get('balanced')
+    if bal:
+        syncs = syncs[:bal] if len(syncs) >= bal else [f'K{i}' for i in range(bal)]
+        for nd in nodes:
+            if nd['id'] == pub:
+                nd['nout'], nd['obal'], nd['required'] = bal, True, syncs
+    rejoin = with_eph and case['rejoin'] and not bal
     for i, k in enumerate(syncs):
-        srcs = [pub]
+        srcs = [pub] if not bal else [{'from': pub, 'k': i}]
         if rejoin and i == 0:
             srcs.append('E0?;main>eph')
-        nodes.append({'id': k, 'sources': srcs, 'nout': 0, 'beh': {'kind': 'sink', 'work': case['sync_work'][i]}, 'start': st_[2]})
+        nodes.append({'id': k, 'sources': srcs, 'nout': 0, 'beh': {'kind': 'sink', 'work': case['sync_work'][i % len(case['sync_work'])]}, 'start': st_[2]})
     if with_eph:
         for j, e in enumerate(case['ephs']):
             beh = {'kind': 'xf' if (rejoin and j == 0) else 'sink', 'work': [e['work']], 'topics': ['main']}
             if e['mode'] == 'stall':
                 beh['stall'] = {'at': e['stall_at'], 'ms': 10_000_000}
-            nodes.append({'id': e['id'], 'sources': [pub + e['mark'] + scen.sub_suffix(e['sub'])], 'nout': 1 if (rejoin and j == 0) else 0, 'beh': beh, 'start': e['start']})
+            src = pub + e['mark'] + scen.sub_suffix(e['sub']) if not bal else {'from': pub, 'k': 0, 'suffix': e['mark'] + scen.sub_suffix(e['sub'])}
+            nodes.append({'id': e['id'], 'sources': [src], 'nout': 1 if (rejoin and j == 0) else 0, 'beh': beh, 'start': e['start']})
     return nodes, pub, syncs
 
 
@@ -103,6 +111,10 @@ def run_once(case, with_eph):
                     p.world.at(e['kill_at'] * 1_000_000, lambda e=e: p.kill(e['id']))
 
         def done():
+            if case.get('balanced'):
+                seen = {pv['seq'] for k in syncs for r in p.process_calls(k) for pv in r['in'].values() if pv}
+                last = max([r['t'] for k in syncs for r in p.process_calls(k)] or [0])
+                return len(seen) >= case['n'] and p.world.now > last + 300_000_000
             for k in syncs:
                 c = p.process_calls(k)
                 if not c or not any(pv and pv.get('origin') == 'S' and pv.get('seq') == case['n'] - 1 for pv in c[-1]['in'].values()):
@@ -128,15 +140,33 @@ def run_case(case):
     for r in (a, b):
         if r['raised']:
             return bad(f'filter {r["raised"][0][0][0]} ended with {r["raised"][0][1]["exc"]}', f'filter-raised:{r["raised"][0][1].get("type")}', classes)
+    if case.get('balanced'):
+        classes.append(f'balanced publisher {case["balanced"]} outputs')
+        # which branch gets which frame legitimately depends on timing; what must not change: every frame reaches exactly one
+        # synchronized consumer, in order per consumer, and the stream as a whole is not held up
+        for name, r in (('with', a), ('without', b)):
+            seqs = [s_ for k in r['calls'] for rec in r['calls'][k] for s_ in sorted({pv['seq'] for pv in rec['in'].values() if pv})]   # one per delivered set
+            if sorted(seqs) != list(range(case['n'])):
+                if name == 'with' or True:
+                    missing = sorted(set(range(case['n'])) - set(seqs))
+                    dup = sorted({x for x in seqs if seqs.count(x) > 1})
+                    return bad(f'balanced publisher {name} listeners: frames missing {missing[:8]} duplicated {dup[:8]} at the synchronized consumers', f'balanced-frames-{name}', classes)
+        ta = max(rec['t'] for k in a['calls'] for rec in a['calls'][k]) / 1e6
+        tb = max(rec['t'] for k in b['calls'] for rec in b['calls'][k]) / 1e6
+        if ta > tb + SLACK_MS:
+            return bad(f'balanced stream finished at {ta:.0f} ms with the ephemeral listeners present, {tb:.0f} ms without (slack {SLACK_MS} ms)', 'sync-stream-delayed:balanced', classes)
+        a_calls, b_calls = {}, {}
+    else:
+        a_calls, b_calls = a['calls'], b['calls']
     # (a) identical synchronized sequences
-    for k in a['calls']:
+    for k in a_calls:
         sa, sb = [sync_view(r) for r in a['calls'][k]], [sync_view(r) for r in b['calls'][k]]
         if sa != sb:
             i = next((i for i, (x, y) in enumerate(zip(sa, sb)) if x != y), min(len(sa), len(sb)))
             return bad(f'{k} received a different synchronized sequence with the ephemeral listeners present: {len(sa)} vs {len(sb)} sets, first difference at {i}: '
                        f'{sa[i] if i < len(sa) else None} vs {sb[i] if i < len(sb) else None}', 'sync-sequence-altered', classes)
     # (b) not slower
-    for k in a['calls']:
+    for k in a_calls:
         if a['calls'][k] and b['calls'][k]:
             ta, tb = a['calls'][k][-1]['t'] / 1e6, b['calls'][k][-1]['t'] / 1e6
             if ta > tb + SLACK_MS:
